@@ -762,10 +762,10 @@ class ScanPlugin(PrimitiveLeafPlugin):
                     getattr(aval, "dtype", np.float32)
                 )
                 if np.issubdtype(desired_np_dtype, np.integer):
-                    target_enum = (
-                        ir.DataType.INT64
-                        if ctx.builder.enable_double_precision
-                        else ir.DataType.INT32
+                    # the integer type JAX computed (int16 stays int16), not a
+                    # blanket INT32 / INT64: consumers are typed from the avals
+                    target_enum = _dtype_to_ir(
+                        desired_np_dtype, ctx.builder.enable_double_precision
                     )
                     cast_val = builder_cast(
                         ctx,
